@@ -16,3 +16,17 @@ func mayFail(s string, fail bool) (string, error) {
 	}
 	return s, nil
 }
+
+func failingInt(fail bool) (int, error) {
+	if fail {
+		return 7, ErrExpr
+	}
+	return 7, nil
+}
+
+func failingBool(fail bool) (bool, error) {
+	if fail {
+		return true, ErrExpr
+	}
+	return true, nil
+}
